@@ -7,7 +7,7 @@ CONSTANTS
   NONE = NONE
   PoolSize = 1
   TxMode = TRUE
-  Dev = {"reset_before_rollback"}
+  Dev = {"no_rollback_at_checkin"}
   MaxMsgs = 4
   Depth = 7
   ProbesLast = TRUE
